@@ -7,27 +7,57 @@ from impcommon import (D, Rule, sx, opt, yq, split_fields, parse_import, canon_t
                        bal_nonzero, fund_text, date_sx, rules_sx, rules_yaml, caps_table)
 
 CLAIM = {
-    "technique": "Lean 4 theorems about an executable model of iso_camt053::import (after XML decoding) composed with the "
-                 "book-keeping model + differential correspondence of generated consistent Camt053 statements through the "
-                 "real quick-xml path and the real report::process",
-    "text": ("Proof: the Camt053 importer after decoding (opening-balance transaction, one transaction per entry or per "
-             "detail of a batched entry, credit/debit sign, value date with booking date as effective date, charges included "
-             "/ not included, amount details, closing balance on the last transaction, row order) is modelled in Lean on top "
-             "of the Txn/to_double_entry model. Theorems: C18_shape_* (shape of the output for every statement) and "
-             "C18_accepts: for every ConsistentStatement (opening + credits - debits = closing, details sum to the entry, "
-             "amount details account for included charges; stated on the importer's output as balanced single-currency "
-             "transactions with a consistent running balance) the model's book-keeping accepts fund :: import and the "
-             "account ends at the closing balance. The model is tied to cli/src/import/iso_camt053.rs by rendering generated "
-             "statements as Camt053 XML, importing them with the real code and diffing the transaction trees; shape, "
-             "acceptance by the real report::process and the closing balance are checked on the real output by a Python "
-             "oracle that does not use the model."),
-    "note": "XML decoding (quick-xml/serde, xmlnode.rs) and the regex engine are outside the model: the model starts from the "
-            "statement structure the generator rendered as XML; single-currency statements only.",
+    "technique": "Lean 4 theorems about an executable model of iso_camt053::import FROM THE BYTES OF THE FILE — a model of quick-xml "
+                 "0.37.4's reader and serde Deserializer (Model/Xml.lean), of the serde schema xmlnode.rs (Model/ImportCamtXml.lean) "
+                 "and of the importer behind it (Model/ImportCamt.lean) — composed with the book-keeping model + differential "
+                 "correspondence: the model reads the same XML text as the real quick-xml path, on generated consistent Camt053 "
+                 "statements, on hostile / boundary XML, and on the model's own canonical rendering; output fed to the real report::process",
+    "text": ("Proof: the Camt053 importer is modelled in Lean from the XML text on: tokens as quick-xml's Reader emits them, the "
+             "deserializer's text handling (trimming before unescaping, comments and PIs not cutting text, CDATA literal), lazy "
+             "attribute parsing, serde-derived struct visitors over the element stream (keys by local name, Vec = run of elements with "
+             "the same qualified name, no overlapped lists, duplicate / missing / unknown fields, $text / $value structs, the untagged "
+             "RelatedParty visitor, Decimal::from_str / from_scientific, chrono's NaiveDate / DateTime FromStr), then opening-balance "
+             "transaction, one transaction per entry or per detail, credit/debit sign, value / booking date, charges, amount details, "
+             "closing balance, row order. Theorems: C18_shape_* and C18_accepts (shape of the output and acceptance by the book-keeping "
+             "model with the closing balance reached, for every decoded statement) and their restatements on texts C18_shape_xml_* / "
+             "C18_accepts_xml (for every text that decodes to the statement); totality of reader and decoder (structural recursion, "
+             "no fuel) and C18_xml_no_crash; unescape(escape s) = s; the reader inverts the printer on canonical trees; "
+             "decode(render d) = ok d (C18_xml_roundtrip) for every Representable d — at least one statement, each with a balance, "
+             "currencies of ASCII letters/digits, domain codes of the schema, numbers of at most 18 digits with scale <= 17 and no negative "
+             "zero (decRT_small: rust_decimal's 64-bit phase), valid dates with a year 0..9999 (dateRT_repr), arbitrary text everywhere "
+             "else — and C18_xml_roundtrip_partial for any d whose numbers / dates round-trip by evaluation; NOT proved: the number round "
+             "trip for 19..29-digit values (C18_xml_roundtrip_stmt, kept visible as a Prop); "
+             "decoder laws: unknown elements are ignored wherever no list run is being read, at any depth, and break a run otherwise; "
+             "order of distinct fields irrelevant; missing required element / repeated scalar / interleaved list are errors. The model is "
+             "tied to the real code by importing the same XML text with both: generated statements (incl. shuffled field order), 478 "
+             "hand-written boundary documents, generated documents under changes that cannot matter (full C18 oracle on the real "
+             "output) or must break decoding (real code must answer XML), and the model's canonical rendering (the real decoder reads "
+             "render d as d); shape, acceptance by the real report::process and the closing balance are checked on the real output by a "
+             "Python oracle that does not use the model."),
+    "note": "Trusted base after this change: the regex engine (matches computed with Python re), YAML decoding of the configuration, and "
+            "UTF-8 input (the model's input is a String). XML decoding is IN the model, except where the model explicitly declines "
+            "(decoded=unsupported, counted by the check, never on generated documents): a tag containing `:nil`, `xmlns:xml` or a reserved "
+            "namespace URI (xsi:nil and NsReader's binding checks depend on the reader's look-ahead), elements named like serde keys "
+            "(`@…`, `$…`), DOCTYPE inside the root (quick-xml panics there: reported), an element inside a code element (`Cd`, "
+            "`CdtDbtInd`, `SubFmlyCd`), from_scientific products beyond 96 bits with a scale left, DtTm years beyond ±262000. "
+            "Single-currency statements only in the generated streams.",
     "design_ref": "DESIGN.md section 6, C18",
 }
 
 THEOREMS = ["Okane.Import.C18_shape_opening", "Okane.Import.C18_shape_entry", "Okane.Import.C18_shape_detail",
-            "Okane.Import.C18_shape_count", "Okane.Import.C18_shape_closing", "Okane.Import.C18_accepts"]
+            "Okane.Import.C18_shape_count", "Okane.Import.C18_shape_closing", "Okane.Import.C18_accepts",
+            "Okane.Import.C18_xml_total", "Okane.Import.C18_xml_no_crash", "Okane.Import.C18_xml_unescape_escape",
+            "Okane.Import.C18_xml_reader_roundtrip", "Okane.Import.C18_xml_roundtrip_partial", "Okane.Import.C18_xml_roundtrip",
+            "Okane.Import.CamtXml.decRT_small", "Okane.Import.CamtXml.dateRT_repr", "Okane.Import.CamtXml.renderable_of_representable",
+            "Okane.Import.C18_xml_render_import",
+            "Okane.Import.C18_xml_import_of_decode", "Okane.Import.C18_shape_xml_entry", "Okane.Import.C18_shape_xml_closing",
+            "Okane.Import.C18_shape_xml_opening", "Okane.Import.C18_accepts_xml", "Okane.Import.C18_xml_unknown_ignored",
+            "Okane.Import.C18_xml_order", "Okane.Import.C18_xml_missing_required", "Okane.Import.C18_xml_duplicate",
+            "Okane.Import.C18_xml_interleaved", "Okane.Import.exXml_decodes", "Okane.Import.exStatement_renderable",
+            "Okane.Import.CamtXml.walk_append", "Okane.Import.CamtXml.walk_unknown_ignored", "Okane.Import.CamtXml.walk_unknown_after_list",
+            "Okane.Import.CamtXml.walk_unknown_breaks_list", "Okane.Import.CamtXml.walk_swap", "Okane.Import.CamtXml.walk_congr",
+            "Okane.Import.CamtXml.entry_fields_commute", "Okane.Import.CamtXml.decEntry_unknown_ignored",
+            "Okane.Import.CamtXml.decodeCamt_render", "Okane.Xml.readRoot_print", "Okane.Xml.unescape_escape", "Okane.Xml.escape_clean"]
 
 ACCOUNT = "Assets:Okane Bank"
 FAMILIES = ["ICDT", "RCDT", "RDDT"]
@@ -188,19 +218,21 @@ def render_date(rng, tag, d, kind):
     return "<%s><DtTm>%04d-%02d-%02dT%02d:30:00+02:00</DtTm></%s>" % (tag, d[0], d[1], d[2], rng.randint(0, 23), tag)
 
 
-def render_charges(rng, chs, ccy):
+def render_charges(rng, chs, ccy, sh="".join):
     if not chs and rng.random() < 0.8:
         return ""
-    out = ["<Chrgs>"]
+    blocks = []
     if chs and rng.random() < 0.5:
-        out.append('<TtlChrgsAndTaxAmt Ccy="%s">%s</TtlChrgsAndTaxAmt>' % (ccy, "1"))
+        blocks.append('<TtlChrgsAndTaxAmt Ccy="%s">%s</TtlChrgsAndTaxAmt>' % (ccy, "1"))
+    run = []
     for ch in chs:
-        out.append('<Rcrd><Amt Ccy="%s">%s</Amt><CdtDbtInd>%s</CdtDbtInd>' % (ccy, amt_text(rng, ch["amount"]), "CRDT" if ch["cd"] == "C" else "DBIT"))
+        pieces = ['<Amt Ccy="%s">%s</Amt>' % (ccy, amt_text(rng, ch["amount"])), "<CdtDbtInd>%s</CdtDbtInd>" % ("CRDT" if ch["cd"] == "C" else "DBIT")]
         if ch["included"] is not None:
-            out.append("<ChrgInclInd>%s</ChrgInclInd>" % ("true" if ch["included"] else "false"))
-        out.append("<Tp><Prtry><Id>SHAR</Id></Prtry></Tp></Rcrd>")
-    out.append("</Chrgs>")
-    return "".join(out)
+            pieces.append("<ChrgInclInd>%s</ChrgInclInd>" % ("true" if ch["included"] else "false"))
+        pieces.append("<Tp><Prtry><Id>SHAR</Id></Prtry></Tp>")
+        run.append("<Rcrd>" + sh(pieces) + "</Rcrd>")
+    blocks.append("".join(run))
+    return "<Chrgs>" + sh(blocks) + "</Chrgs>"
 
 
 def render_party(tag, name, nested):
@@ -210,12 +242,22 @@ def render_party(tag, name, nested):
     return "<%s>%s</%s>" % (tag, inner, tag)
 
 
-def render_xml(rng, stmts):
+def render_xml(rng, stmts, shuffle=False):
+    """`shuffle`: the children of every struct-like element come in a random order (the items of a list stay together):
+    serde-derived visitors do not care about the order of distinct fields"""
+    def sh(blocks):
+        blocks = [b for b in blocks if b]
+        if shuffle:
+            rng.shuffle(blocks)
+        return "".join(blocks)
+
+    def cd_el(cd):
+        return "<CdtDbtInd>%s</CdtDbtInd>" % ("CRDT" if cd == "C" else "DBIT")
+
     o = ['<?xml version="1.0" encoding="UTF-8"?>\n<Document xmlns="urn:iso:std:iso:20022:tech:xsd:camt.053.001.04">\n<BkToCstmrStmt>\n',
          "<GrpHdr><MsgId>1</MsgId><CreDtTm>2024-01-01T00:00:00</CreDtTm></GrpHdr>\n"]
     for st in stmts:
         ccy = st["ccy"]
-        o.append("<Stmt><Id>S</Id><Acct><Id><IBAN>CH00</IBAN></Id><Ccy>%s</Ccy></Acct>\n" % ccy)
         bals = []
         if st["opening"] is not None:
             bals.append(("OPBD", st["opening"]))
@@ -225,36 +267,38 @@ def render_xml(rng, stmts):
             bals.reverse()
         for xb in st["extra_bals"]:
             bals.insert(rng.randint(0, len(bals)), xb)
+        st["bal_order"] = list(bals)          # the order of the <Bal> elements in the file (the decoder keeps it)
+        bal_run = []
         for code, cents in bals:
-            o.append('<Bal><Tp><CdOrPrtry><Cd>%s</Cd></CdOrPrtry></Tp><Amt Ccy="%s">%s</Amt><CdtDbtInd>%s</CdtDbtInd><Dt><Dt>2024-01-01</Dt></Dt></Bal>\n'
-                     % (code, ccy, amt_text(rng, D.cents(abs(cents))), "CRDT" if cents >= 0 else "DBIT"))
-        o.append("<TxsSummry><TtlNtries><NbOfNtries>%d</NbOfNtries></TtlNtries></TxsSummry>\n" % len(st["entries"]))
+            bal_run.append("<Bal>" + sh(["<Tp><CdOrPrtry><Cd>%s</Cd></CdOrPrtry></Tp>" % code,
+                                         '<Amt Ccy="%s">%s</Amt>' % (ccy, amt_text(rng, D.cents(abs(cents)))),
+                                         cd_el("C" if cents >= 0 else "D"), "<Dt><Dt>2024-01-01</Dt></Dt>"]) + "</Bal>\n")
+        ntry_run = []
         for e in st["entries"]:
-            o.append('<Ntry><Amt Ccy="%s">%s</Amt><CdtDbtInd>%s</CdtDbtInd><RvslInd>false</RvslInd><Sts>BOOK</Sts>' %
-                     (ccy, amt_text(rng, e["amount"]), "CRDT" if e["cd"] == "C" else "DBIT"))
-            o.append(render_date(rng, "BookgDt", e["booking"], e["dt_kind"]))
+            pieces = ['<Amt Ccy="%s">%s</Amt>' % (ccy, amt_text(rng, e["amount"])), cd_el(e["cd"]),
+                      "<RvslInd>false</RvslInd>", "<Sts>BOOK</Sts>", render_date(rng, "BookgDt", e["booking"], e["dt_kind"])]
             if e["value"] is not None:
-                o.append(render_date(rng, "ValDt", e["value"], e["dt_kind"]))
+                pieces.append(render_date(rng, "ValDt", e["value"], e["dt_kind"]))
             if e["domain"]:
-                o.append("<BkTxCd><Domn><Cd>%s</Cd><Fmly><Cd>%s</Cd><SubFmlyCd>%s</SubFmlyCd></Fmly></Domn></BkTxCd>" % e["domain"])
+                pieces.append("<BkTxCd>" + sh(["<Domn>" + sh(["<Cd>%s</Cd>" % e["domain"][0],
+                                                              "<Fmly>" + sh(["<Cd>%s</Cd>" % e["domain"][1], "<SubFmlyCd>%s</SubFmlyCd>" % e["domain"][2]]) + "</Fmly>"]) + "</Domn>"]) + "</BkTxCd>")
             else:
-                o.append("<BkTxCd><Prtry><Cd>XYZ</Cd><Issr>Bank</Issr></Prtry></BkTxCd>")
-            o.append(render_charges(rng, e["charges"], ccy))
+                pieces.append("<BkTxCd><Prtry>" + sh(["<Cd>XYZ</Cd>", "<Issr>Bank</Issr>"]) + "</Prtry></BkTxCd>")
+            pieces.append(render_charges(rng, e["charges"], ccy, sh))
             if e["details"] or rng.random() < 0.5:
-                o.append("<NtryDtls>")
+                blocks = []
                 if e["details"] or rng.random() < 0.5:
-                    o.append('<Btch><NbOfTxs>%d</NbOfTxs><TtlAmt Ccy="%s">%s</TtlAmt><CdtDbtInd>%s</CdtDbtInd></Btch>' %
-                             (max(1, len(e["details"])), ccy, e["amount"].text(), "CRDT" if e["cd"] == "C" else "DBIT"))
+                    blocks.append('<Btch><NbOfTxs>%d</NbOfTxs><TtlAmt Ccy="%s">%s</TtlAmt><CdtDbtInd>%s</CdtDbtInd></Btch>' %
+                                  (max(1, len(e["details"])), ccy, e["amount"].text(), "CRDT" if e["cd"] == "C" else "DBIT"))
+                run = []
                 for d in e["details"]:
-                    o.append("<TxDtls><Refs>")
-                    if d["ref"] is not None:
-                        o.append("<AcctSvcrRef>%s</AcctSvcrRef>" % xml_escape(d["ref"]))
-                    o.append("<EndToEndId>NOTPROVIDED</EndToEndId></Refs>")
-                    o.append('<Amt Ccy="%s">%s</Amt><CdtDbtInd>%s</CdtDbtInd>' % (ccy, amt_text(rng, d["amount"]), "CRDT" if d["cd"] == "C" else "DBIT"))
+                    tp = ["<Refs>" + sh([("<AcctSvcrRef>%s</AcctSvcrRef>" % xml_escape(d["ref"])) if d["ref"] is not None else "",
+                                         "<EndToEndId>NOTPROVIDED</EndToEndId>"]) + "</Refs>",
+                          '<Amt Ccy="%s">%s</Amt>' % (ccy, amt_text(rng, d["amount"])), cd_el(d["cd"])]
                     if d["txamt"] is not None:
-                        o.append('<AmtDtls><InstdAmt><Amt Ccy="%s">%s</Amt></InstdAmt><TxAmt><Amt Ccy="%s">%s</Amt></TxAmt></AmtDtls>' %
-                                 (ccy, d["txamt"]["amount"].text(), ccy, d["txamt"]["amount"].text()))
-                    o.append(render_charges(rng, d["charges"], ccy))
+                        tp.append("<AmtDtls>" + sh(['<InstdAmt><Amt Ccy="%s">%s</Amt></InstdAmt>' % (ccy, d["txamt"]["amount"].text()),
+                                                    '<TxAmt><Amt Ccy="%s">%s</Amt></TxAmt>' % (ccy, d["txamt"]["amount"].text())]) + "</AmtDtls>")
+                    tp.append(render_charges(rng, d["charges"], ccy, sh))
                     inf = d["info"]
                     rp = []
                     for key, tag in (("debtor_name", "Dbtr"), ("creditor_name", "Cdtr"), ("ultimate_debtor_name", "UltmtDbtr"),
@@ -269,15 +313,19 @@ def render_xml(rng, stmts):
                         else:
                             rp.append("<CdtrAcct><Id><Othr><Id>%s</Id></Othr></Id></CdtrAcct>" % inf["creditor_account_id"])
                     if rp:
-                        o.append("<RltdPties>%s</RltdPties>" % "".join(rp))
+                        tp.append("<RltdPties>%s</RltdPties>" % sh(rp))
                     if "remittance_unstructured_info" in inf:
-                        o.append("<RmtInf><Ustrd>%s</Ustrd></RmtInf>" % xml_escape(inf["remittance_unstructured_info"]))
+                        tp.append("<RmtInf><Ustrd>%s</Ustrd></RmtInf>" % xml_escape(inf["remittance_unstructured_info"]))
                     if "additional_transaction_info" in inf:
-                        o.append("<AddtlTxInf>%s</AddtlTxInf>" % xml_escape(inf["additional_transaction_info"]))
-                    o.append("</TxDtls>")
-                o.append("</NtryDtls>")
-            o.append("<AddtlNtryInf>%s</AddtlNtryInf></Ntry>\n" % xml_escape(e["info"]))
-        o.append("</Stmt>\n")
+                        tp.append("<AddtlTxInf>%s</AddtlTxInf>" % xml_escape(inf["additional_transaction_info"]))
+                    run.append("<TxDtls>" + sh(tp) + "</TxDtls>")
+                blocks.append("".join(run))
+                pieces.append("<NtryDtls>" + sh(blocks) + "</NtryDtls>")
+            pieces.append("<AddtlNtryInf>%s</AddtlNtryInf>" % xml_escape(e["info"]))
+            ntry_run.append("<Ntry>" + sh(pieces) + "</Ntry>\n")
+        o.append("<Stmt>" + sh(["<Id>S</Id>", "<Acct><Id><IBAN>CH00</IBAN></Id><Ccy>%s</Ccy></Acct>\n" % ccy, "".join(bal_run),
+                                "<TxsSummry><TtlNtries><NbOfNtries>%d</NbOfNtries></TtlNtries></TxsSummry>\n" % len(st["entries"]),
+                                "".join(ntry_run)]) + "</Stmt>\n")
     o.append("</BkToCstmrStmt>\n</Document>\n")
     return "".join(o)
 
@@ -294,14 +342,9 @@ def stmts_sx(stmts):
     out = []
     for st in stmts:
         ccy = st["ccy"]
-        bals = []
-        # order of the <Bal> elements does not matter to find_balance as long as each code occurs once
-        if st["opening"] is not None:
-            bals.append("(bal OPBD %s %s)" % (amt_sx(D.cents(abs(st["opening"])), ccy), "C" if st["opening"] >= 0 else "D"))
-        if st["closing"] is not None:
-            bals.append("(bal CLBD %s %s)" % (amt_sx(D.cents(abs(st["closing"])), ccy), "C" if st["closing"] >= 0 else "D"))
-        for code, cents in st["extra_bals"]:
-            bals.append("(bal %s %s %s)" % (code, amt_sx(D.cents(abs(cents)), ccy), "C" if cents >= 0 else "D"))
+        # the <Bal> elements in the order render_xml wrote them (the decoder keeps the file order)
+        bals = ["(bal %s %s %s)" % (code, amt_sx(D.cents(abs(cents)), ccy), "C" if cents >= 0 else "D")
+                for code, cents in st["bal_order"]]
         ents = []
         for e in st["entries"]:
             dtls = []
@@ -317,6 +360,541 @@ def stmts_sx(stmts):
                 "".join(" " + x for x in dtls), enc(e["info"])))
         out.append("(stmt (bals%s) (entries%s))" % ("".join(" " + b for b in bals), "".join(" " + x for x in ents)))
     return "(" + " ".join(out) + ")"
+
+
+# ------------------------------------------------------------------------------------------------
+# the decoder stream: XML variations whose effect is known without the model
+
+STRUCT_TAGS = ["Ntry", "Stmt", "TxDtls", "NtryDtls", "Bal", "Rcrd", "Chrgs", "RltdPties", "BkTxCd", "Domn", "Fmly", "Refs",
+               "BkToCstmrStmt", "Btch", "AmtDtls", "InstdAmt", "TxAmt", "Prtry", "RmtInf", "Tp", "CdOrPrtry", "Othr", "CdtrAcct", "DbtrAcct"]
+UNKNOWN_ELEMENTS = ["<Xtra/>", "<Xtra></Xtra>", "<Xtra>text &amp; more</Xtra>", "<Xtra a='1' b=\"2\"><Y><Z>deep</Z></Y><Y/></Xtra>",
+                    "<x:Xtra xmlns:x=\"urn:x\"><x:Ntry>not an entry</x:Ntry></x:Xtra>", "<Xtra><![CDATA[<Ntry>]]></Xtra>",
+                    "<Xtra><Amt>no currency, not a number</Amt></Xtra>", "<Xtra><Xtra><Xtra/></Xtra></Xtra>"]
+FILLERS = ["\n", "\n    ", "  \t ", "<!-- comment -->", "<!-- <Ntry> -- > -->", "<?pi target?>", "\n<!---->\n", "<?xml version=\"1.0\"?>", " <!-- a --> <!-- b --> "]
+TEXT_TAGS = ["AddtlNtryInf", "AddtlTxInf", "Nm", "Ustrd", "AcctSvcrRef"]
+
+
+def xml_unescape(t):
+    return t.replace("&lt;", "<").replace("&gt;", ">").replace("&amp;", "&")
+
+
+def _sub_nth(rng, pattern, xml, repl, flags=0):
+    """applies `repl` (a function of the match) to one random match; None when there is none"""
+    ms = list(re.finditer(pattern, xml, flags))
+    if not ms:
+        return None
+    m = rng.choice(ms)
+    return xml[:m.start()] + repl(m) + xml[m.end():]
+
+
+def preserve_fill(rng, xml):
+    """white space, comments, processing instructions between two tags: never reach the deserializer"""
+    for _ in range(rng.randint(1, 12)):
+        xml = _sub_nth(rng, r"><", xml, lambda m: ">" + rng.choice(FILLERS) + "<") or xml
+    return xml
+
+
+def preserve_unknown(rng, xml):
+    """an element no schema position knows, as first or last child of a struct-like element"""
+    for _ in range(rng.randint(1, 5)):
+        tag = rng.choice(STRUCT_TAGS)
+        u = rng.choice(UNKNOWN_ELEMENTS)
+        if rng.random() < 0.5:
+            xml = _sub_nth(rng, r"<%s>" % tag, xml, lambda m: m.group(0) + u) or xml
+        else:
+            xml = _sub_nth(rng, r"</%s>" % tag, xml, lambda m: u + m.group(0)) or xml
+    return xml
+
+
+def preserve_prefix(rng, xml):
+    """every element under one namespace prefix: serde sees local names"""
+    pre = rng.choice(["ns", "camt", "a.b", "_"])
+    start = re.search(r"<[A-Za-z_]", xml).start()
+    parts = re.split(r"(<!\[CDATA\[.*?\]\]>|<!--.*?-->|<\?.*?\?>)", xml[start:], flags=re.S)      # markup only
+    body = "".join(p if k % 2 else re.sub(r"<(/?)([A-Za-z])", lambda m: "<%s%s:%s" % (m.group(1), pre, m.group(2)), p) for k, p in enumerate(parts))
+    return xml[:start] + re.sub(r"^<(\S+) ", lambda m: '<%s xmlns:%s="urn:iso:std:iso:20022:tech:xsd:camt.053.001.04" ' % (m.group(1), pre), body, count=1)
+
+
+def preserve_text(rng, xml):
+    """the same character data written another way: CDATA, character references, padding white space, split by a comment"""
+    for _ in range(rng.randint(1, 6)):
+        tag = rng.choice(TEXT_TAGS)
+
+        def rewrite(m):
+            raw = m.group(1)
+            if raw != raw.strip() or "&#" in raw:
+                return m.group(0)           # rewritten before
+            plain = xml_unescape(raw)
+            k = rng.choice(["cdata", "ref", "pad", "split", "cdata-mix"])
+            if k == "cdata" and "]]>" not in plain:
+                body = "<![CDATA[%s]]>" % plain
+            elif k == "ref":
+                body = "".join("&#%d;" % ord(c) if rng.random() < 0.3 else ("&#x%X;" % ord(c) if rng.random() < 0.2 else xml_escape(c)) for c in plain)
+            elif k == "pad":
+                body = rng.choice([" ", "\n  ", "\t"]) + raw + rng.choice([" ", "\n", ""])
+            elif k == "split" and len(plain) >= 2:
+                cut = rng.randint(1, len(plain) - 1)
+                body = xml_escape(plain[:cut]) + rng.choice(["<!-- x -->", "<?p?>"]) + xml_escape(plain[cut:])
+            elif k == "cdata-mix" and len(plain) >= 2 and "]]>" not in plain:
+                cut = rng.randint(1, len(plain) - 1)
+                body = xml_escape(plain[:cut]) + "<![CDATA[%s]]>" % plain[cut:]
+            else:
+                body = raw
+            return "<%s>%s</%s>" % (tag, body, tag)
+        xml = _sub_nth(rng, r"<%s>([^<]*)</%s>" % (tag, tag), xml, rewrite) or xml
+    return xml
+
+
+def preserve_attrs(rng, xml):
+    """quotes, spacing and extra attributes; attributes of leaves are not even parsed"""
+    xml = re.sub(r'Ccy="([A-Z]+)"', lambda m: rng.choice(['Ccy="%s"', "Ccy='%s'", 'Ccy = "%s"', 'Ccy\n=\n"%s" ', 'x:Ccy="%s"', 'other="&lt;" Ccy="%s"',
+                                                           'Ccy="%s" xmlns:q="urn:q" q:z=\'"\'']) % m.group(1), xml)
+    for _ in range(rng.randint(0, 4)):
+        tag = rng.choice(STRUCT_TAGS)
+        xml = _sub_nth(rng, r"<%s>" % tag, xml, lambda m: "<%s %s>" % (tag, rng.choice(['id="1"', "a='x' b = \"y\"", 'note="a &gt; b"']))) or xml
+    for _ in range(rng.randint(0, 3)):
+        tag = rng.choice(TEXT_TAGS + ["Dt", "IBAN", "NbOfTxs", "ChrgInclInd"])
+        xml = _sub_nth(rng, r"<%s>" % tag, xml, lambda m: "<%s %s>" % (tag, rng.choice(["unquoted=1", "novalue", 'dup="1" dup="2"', "=", 'a="1"']))) or xml
+    return xml
+
+
+def preserve_numbers(rng, xml):
+    """other spellings of the same Decimal (same value, same scale)"""
+    def rw(m):
+        t = m.group(2)
+        k = rng.choice(["plus", "pad", "us", "lead0", "same", "same"])
+        if k == "plus":
+            t = "+" + t
+        elif k == "pad":
+            t = rng.choice([" ", "\n"]) + t + rng.choice([" ", "\t", ""])
+        elif k == "us" and len(t) > 1 and t[0].isdigit():
+            t = t[0] + "_" + t[1:]
+        elif k == "lead0" and t[0].isdigit():
+            t = "00" + t
+        return m.group(1) + t + "</"
+    return re.sub(r"(<(?:Amt|TtlChrgsAndTaxAmt)[^>]*>)([0-9.]+)</", rw, xml)
+
+
+def preserve_envelope(rng, xml):
+    """what is around the root element is not looked at; nor is the root element's name"""
+    body = xml[re.search(r"<[A-Za-z_]", xml).start():]
+    k = rng.choice(["bom", "doctype", "tail", "tail-root", "rootname", "comment-head"])
+    if k == "bom":
+        return "﻿" + xml
+    if k == "doctype":
+        return '<?xml version="1.0"?>\n<!DOCTYPE Document [ <!ENTITY e "v"> ]>\n' + body
+    if k == "tail":
+        return xml + rng.choice(["trailing text", "<unclosed", "</Document>", "&bad;", "<!-- never closed", "<![CDATA["])
+    if k == "tail-root":
+        return xml + body
+    if k == "rootname":
+        return re.sub(r"(</?(?:[\w.]+:)?)Document\b", lambda m: m.group(1) + "Whatever", xml)
+    return "<!-- head --><?p?>\n \n" + body
+
+
+PRESERVING = [("fill", preserve_fill), ("unknown", preserve_unknown), ("prefix", preserve_prefix), ("text", preserve_text),
+              ("attrs", preserve_attrs), ("numbers", preserve_numbers), ("envelope", preserve_envelope)]
+
+
+def _remove_first_child(rng, xml, parent, child):
+    """removes one `child` element that is a direct child of a random `parent` element"""
+    def rm(m):
+        inner = m.group(1)
+        # the first occurrence at nesting depth 0 of the parent's content
+        depth = 0
+        for t in re.finditer(r"<(/?)([A-Za-z]+)([^>]*?)(/?)>", inner):
+            if t.group(1):
+                depth -= 1
+            else:
+                if depth == 0 and t.group(2) == child:
+                    if t.group(4):
+                        return "<%s>%s</%s>" % (parent, inner[:t.start()] + inner[t.end():], parent)
+                    end = _matching_end(inner, t.end(), child)
+                    return "<%s>%s</%s>" % (parent, inner[:t.start()] + inner[end:], parent)
+                if not t.group(4):
+                    depth += 1
+        return None
+    ms = [m for m in re.finditer(r"<%s>(.*?)</%s>" % (parent, parent), xml, re.S)]
+    rng.shuffle(ms)
+    for m in ms:
+        r = rm(m)
+        if r is not None:
+            return xml[:m.start()] + r + xml[m.end():]
+    return None
+
+
+def _matching_end(text, pos, tag):
+    depth = 1
+    for t in re.finditer(r"<(/?)%s(?:\s[^>]*)?(/?)>" % tag, text[pos:]):
+        if t.group(1):
+            depth -= 1
+            if depth == 0:
+                return pos + t.end()
+        elif not t.group(2):
+            depth += 1
+    return len(text)
+
+
+REQUIRED = [("Ntry", "Amt"), ("Ntry", "CdtDbtInd"), ("Ntry", "BookgDt"), ("Ntry", "BkTxCd"), ("Ntry", "AddtlNtryInf"),
+            ("TxDtls", "Refs"), ("TxDtls", "Amt"), ("TxDtls", "CdtDbtInd"), ("Bal", "Tp"), ("Bal", "Amt"), ("Bal", "CdtDbtInd"),
+            ("Rcrd", "Amt"), ("Rcrd", "CdtDbtInd"), ("Tp", "CdOrPrtry"), ("CdOrPrtry", "Cd"), ("Domn", "Cd"), ("Domn", "Fmly"),
+            ("Fmly", "Cd"), ("Fmly", "SubFmlyCd"), ("Btch", "NbOfTxs"), ("AmtDtls", "InstdAmt"), ("AmtDtls", "TxAmt"),
+            ("InstdAmt", "Amt"), ("TxAmt", "Amt"), ("Prtry", "Cd"), ("CdtrAcct", "Id"), ("DbtrAcct", "Id"), ("Othr", "Id"),
+            ("Document", "BkToCstmrStmt")]
+SCALARS = [("Ntry", "Amt"), ("Ntry", "CdtDbtInd"), ("Ntry", "BookgDt"), ("Ntry", "ValDt"), ("Ntry", "BkTxCd"), ("Ntry", "AddtlNtryInf"),
+           ("Ntry", "Chrgs"), ("Ntry", "NtryDtls"), ("TxDtls", "Refs"), ("TxDtls", "Amt"), ("TxDtls", "CdtDbtInd"), ("TxDtls", "AddtlTxInf"),
+           ("TxDtls", "RltdPties"), ("TxDtls", "RmtInf"), ("Bal", "Tp"), ("Bal", "Amt"), ("Rcrd", "ChrgInclInd"), ("NtryDtls", "Btch"),
+           ("Refs", "AcctSvcrRef"), ("RltdPties", "Cdtr"), ("RltdPties", "Dbtr"), ("Fmly", "Cd"), ("Chrgs", "TtlChrgsAndTaxAmt")]
+
+
+def breaking(rng, xml):
+    """one change after which decoding must fail (`None`: the change does not apply to this document) -> (kind, xml)"""
+    k = rng.choice(["missing", "missing", "missing", "dup", "dup", "interleave", "truncate", "text-in-list", "bad-entity", "mismatch",
+                    "attr", "no-ccy", "amount-child", "indicator", "one-prefixed", "code", "no-bal", "date", "number"])
+    if k == "missing":
+        parent, child = rng.choice(REQUIRED)
+        if parent == "Document":
+            return k + ":BkToCstmrStmt", re.sub(r"<BkToCstmrStmt>.*</BkToCstmrStmt>", "", xml, flags=re.S)
+        r = _remove_first_child(rng, xml, parent, child)
+        return (k + ":%s/%s" % (parent, child), r) if r else (k, None)
+    if k == "dup":
+        parent, child = rng.choice(SCALARS)
+
+        def dup(m):
+            inner = m.group(1)
+            depth = 0
+            for t in re.finditer(r"<(/?)([A-Za-z]+)([^>]*?)(/?)>", inner):
+                if t.group(1):
+                    depth -= 1
+                else:
+                    if depth == 0 and t.group(2) == child and not t.group(4):
+                        end = _matching_end(inner, t.end(), child)
+                        el = inner[t.start():end]
+                        where = rng.choice([0, len(inner), end])      # first, last, right behind the original
+                        return "<%s>%s</%s>" % (parent, inner[:where] + el + inner[where:], parent)
+                    if not t.group(4):
+                        depth += 1
+            return None
+        ms = list(re.finditer(r"<%s>(.*?)</%s>" % (parent, parent), xml, re.S))
+        rng.shuffle(ms)
+        for m in ms:
+            r = dup(m)
+            if r is not None:
+                return k + ":%s/%s" % (parent, child), xml[:m.start()] + r + xml[m.end():]
+        return k, None
+    if k == "interleave":
+        tag = rng.choice(["Ntry", "Bal", "TxDtls", "Rcrd", "Stmt"])
+        r = _sub_nth(rng, r"</%s>(\s*)<%s>" % (tag, tag), xml, lambda m: "</%s>%s<%s>" % (tag, rng.choice(["<Xtra/>", "<Sep>x</Sep>", "<Id>S</Id>"]), tag))
+        return k + ":" + tag, r
+    if k == "truncate":
+        end = xml.rindex("</Document>") + len("</Document>") - 1
+        return k, xml[:rng.randint(xml.index("<Document") + 1, end)]
+    if k == "text-in-list":
+        tag = rng.choice(["Ntry", "Bal", "TxDtls", "Rcrd"])
+        r = _sub_nth(rng, r"</%s>(\s*)<" % tag, xml, lambda m: "</%s> stray text <" % tag)
+        return k + ":" + tag, r
+    if k == "bad-entity":
+        tag = rng.choice(TEXT_TAGS + ["Cd", "IBAN"])
+        r = _sub_nth(rng, r"(?<=trAcct><Id>)<IBAN>" if tag == "IBAN" else r"<%s>" % tag, xml, lambda m: m.group(0) + rng.choice(["&nbsp;", "&", "&#0;", "&#xD800;", "&amp", "&#x110000;", "&;"]))
+        return k + ":" + tag, r
+    if k == "mismatch":
+        tag = rng.choice(STRUCT_TAGS + TEXT_TAGS)
+        r = _sub_nth(rng, r"</%s>" % tag, xml, lambda m: rng.choice(["</%sx>" % tag, "</%s>" % tag.lower(), "</ %s>" % tag, "</x:%s>" % tag]))
+        return k + ":" + tag, r
+    if k == "attr":
+        # struct-like elements that the generator never puts inside an element the schema does not know
+        tag = rng.choice([t for t in STRUCT_TAGS if t not in ("Tp", "Prtry")] + ["BookgDt", "ValDt", "SubFmlyCd", "Cdtr", "Dbtr"])
+        r = _sub_nth(rng, r"<%s>" % tag, xml, lambda m: "<%s %s>" % (tag, rng.choice(["unquoted=1", "novalue", 'dup="1" dup="2"', "=", 'a="1" b', "a='1\""])))
+        return k + ":" + tag, r
+    if k == "no-ccy":
+        r = _sub_nth(rng, r'<(Amt|TtlChrgsAndTaxAmt) Ccy="[A-Z]+">', xml, lambda m: rng.choice(["<%s>", '<%s ccy="CHF">', '<%s Ccy="CHF" x:Ccy="CHF">', '<%s Ccy="&bad;">']) % m.group(1))
+        return k, r
+    if k == "amount-child":
+        r = _sub_nth(rng, r'(<Amt Ccy="[A-Z]+">)([0-9.]+)</Amt>', xml, lambda m: m.group(1) + rng.choice(
+            ["<Val>%s</Val>" % m.group(2), m.group(2) + "<Unit/>", "<Unit/>" + m.group(2), "", "<![CDATA[]]>", m.group(2) + " CHF", m.group(2).replace(".", ","),
+             "1 " + m.group(2), "0x" + m.group(2), m.group(2) + "e", "--" + m.group(2), m.group(2) + ".1.2"]) + "</Amt>")
+        return k, r
+    if k == "indicator":
+        r = _sub_nth(rng, r"(?<!</TtlAmt>)<CdtDbtInd>(CRDT|DBIT)</CdtDbtInd>", xml, lambda m: "<CdtDbtInd>%s</CdtDbtInd>" % rng.choice(["crdt", "CREDIT", "", "C", "CRDT DBIT", "CRDT&#32;", "DBIT<!-- -->X"]))
+        return k, r
+    if k == "one-prefixed":
+        tag = rng.choice(["Ntry", "Bal", "TxDtls"])
+        ms = list(re.finditer(r"<%s>" % tag, xml))
+        if len(ms) < 2:
+            return k, None
+        # the items of a list must carry the same qualified name: the run of <Ntry> ends at <p:Ntry>, which is then a second `Ntry` key
+        m = rng.choice(ms[1:])
+        if xml[:m.start()].rstrip().endswith("</%s>" % tag):
+            end = _matching_end(xml, m.end(), tag)
+            return k + ":" + tag, xml[:m.start()] + "<p:%s>" % tag + xml[m.end():end - len("</%s>" % tag)] + "</p:%s>" % tag + xml[end:]
+        return k, None
+    if k == "code":
+        r = _sub_nth(rng, r"<(Cd|SubFmlyCd)>(PMNT|ICDT|RCDT|RDDT|AUTT|DAJT|PMDD|SALA|STDO|OTHR)</", xml, lambda m: "<%s>%s</" % (m.group(1), rng.choice(["XXXX", "", m.group(2).lower(), m.group(2) + "S"])))
+        return k, r
+    if k == "no-bal":
+        return k, re.sub(r"<Bal>.*?</Bal>\s*", "", xml, flags=re.S) if "<Bal>" in xml else None
+    if k == "date":
+        r = _sub_nth(rng, r"(?<=Dt>)<Dt>([0-9-]+)</Dt>(?=</(?:BookgDt|ValDt)>)", xml, lambda m: "<Dt>%s</Dt>" % rng.choice(["", "2024-02-30", "2024-13-01", "02.01.2024", "2024/01/02", "20240102", m.group(1) + "T00:00:00", m.group(1) + "Z", "yesterday"]))
+        if r is None:
+            r = _sub_nth(rng, r"<DtTm>([^<]+)</DtTm>", xml, lambda m: "<DtTm>%s</DtTm>" % rng.choice(["", m.group(1)[:19], m.group(1)[:10], m.group(1).replace("T", "_"), m.group(1)[:19] + "+25:00", m.group(1)[:11] + "24:00:00Z"]))
+        return k, r
+    if k == "number":
+        r = _sub_nth(rng, r"<NbOfTxs>(\d+)</NbOfTxs>", xml, lambda m: "<NbOfTxs>%s</NbOfTxs>" % rng.choice(["", "-1", "1.0", "one", "18446744073709551616", "1 2"]))
+        if r is None or rng.random() < 0.5:
+            r2 = _sub_nth(rng, r"<ChrgInclInd>(true|false)</ChrgInclInd>", xml, lambda m: "<ChrgInclInd>%s</ChrgInclInd>" % rng.choice(["TRUE", "yes", "", "2", "t"]))
+            r = r2 or r
+        return k, r
+    return k, None
+
+
+def boundary_corpus():
+    """hand-written boundary documents for the decoder (model against implementation; `expect`: 'ok' / 'err' where the
+    reading of quick-xml / serde says so independently of the model, None where only the comparison speaks)"""
+    bal = '<Bal><Tp><CdOrPrtry><Cd>OPBD</Cd></CdOrPrtry></Tp><Amt Ccy="CHF">1</Amt><CdtDbtInd>CRDT</CdtDbtInd></Bal>'
+
+    def wrap(body, b=bal):
+        return "<Document><BkToCstmrStmt><Stmt>" + b + body + "</Stmt></BkToCstmrStmt></Document>"
+
+    def ntry(inner="", amt='<Amt Ccy="CHF">5</Amt>', cd="<CdtDbtInd>CRDT</CdtDbtInd>", bd="<BookgDt><Dt>2024-01-02</Dt></BookgDt>",
+             bk="<BkTxCd/>", info="<AddtlNtryInf>i</AddtlNtryInf>"):
+        return "<Ntry>" + amt + cd + bd + bk + inner + info + "</Ntry>"
+
+    def tx(inner="", refs="<Refs><AcctSvcrRef>R1</AcctSvcrRef></Refs>", amt='<Amt Ccy="CHF">5</Amt>', cd="<CdtDbtInd>CRDT</CdtDbtInd>"):
+        return "<TxDtls>" + refs + amt + cd + inner + "</TxDtls>"
+
+    def nd(body, btch=""):
+        return ntry(inner="<NtryDtls>" + btch + body + "</NtryDtls>")
+
+    def rp(body):
+        return wrap(nd(tx(inner="<RltdPties>" + body + "</RltdPties>")))
+    E = ntry()
+    out = []
+
+    def add(label, xml, expect=None):
+        out.append((label, xml, expect))
+    # --- the envelope
+    add("base", wrap(E), "ok")
+    add("root name is not looked at", wrap(E).replace("Document", "Foo"), "ok")
+    add("two roots: the second is never read", wrap(E) + wrap(E), "ok")
+    add("ill-formed text behind the root", wrap(E) + "<<<&&", "ok")
+    add("text before the root", "junk" + wrap(E), "err")
+    add("prolog", ' \n<?xml version="1.0"?><!-- c --><?pi x?>\n' + wrap(E), "ok")
+    add("BOM", "﻿" + wrap(E), "ok")
+    add("DOCTYPE before the root", "<!DOCTYPE foo [<!ENTITY x 'y'>]>" + wrap(E), "ok")
+    add("DOCTYPE without name", "<!DOCTYPE >" + wrap(E), "err")
+    add("CDATA before the root", "<![CDATA[x]]>" + wrap(E), "err")
+    add("empty document", "", "err")
+    add("white space only", "  \n", "err")
+    add("comment only", "<!-- x -->", "err")
+    add("truncated", wrap(E)[:-12], "err")
+    add("truncated inside the last tag", wrap(E)[:-3], "err")
+    add("root self-closed", "<Document/>", "err")
+    add("no BkToCstmrStmt", "<Document></Document>", "err")
+    add("no Stmt", "<Document><BkToCstmrStmt></BkToCstmrStmt></Document>", "err")
+    add("no Bal (Vec without default)", wrap(E, b=""), "err")
+    add("Stmt without entries", wrap(""), "ok")
+    add("empty Stmt", "<Document><BkToCstmrStmt><Stmt/></BkToCstmrStmt></Document>", "err")
+    add("two BkToCstmrStmt", "<Document><BkToCstmrStmt><Stmt>%s</Stmt></BkToCstmrStmt><BkToCstmrStmt><Stmt>%s</Stmt></BkToCstmrStmt></Document>" % (bal, bal), "err")
+    add("root attribute ill-formed", wrap(E).replace("<Document>", "<Document a=b>"), "err")
+    add("text children of the root", "<Document>junk<BkToCstmrStmt><Stmt>%s</Stmt></BkToCstmrStmt>junk</Document>" % bal, "ok")
+    add("xmlns and xsi:schemaLocation", wrap(E).replace("<Document>", '<Document xmlns="urn:iso:std:iso:20022:tech:xsd:camt.053.001.04" xmlns:xsi="http://www.w3.org/2001/XMLSchema-instance" xsi:schemaLocation="a b">'), "ok")
+    # --- lists
+    add("unknown element between two Ntry", wrap(E + "<X/>" + E), "err")
+    add("unknown elements around the Ntry run", wrap("<X/>" + E + E + "<X/>"), "ok")
+    add("text between two Ntry", wrap(E + "junk" + E), "err")
+    add("text behind the last Ntry", wrap(E + E + "junk"), "err")
+    add("text behind the last Bal", wrap("junk" + E + E), "err")
+    add("text before the first Bal", "<Document><BkToCstmrStmt><Stmt>junk" + bal + E + "</Stmt></BkToCstmrStmt></Document>", "ok")
+    add("comment between two Ntry", wrap(E + "<!-- c -->" + E), "ok")
+    add("white space between two Ntry", wrap(E + "\n  " + E), "ok")
+    add("second Ntry prefixed", wrap(E + E.replace("<Ntry>", "<x:Ntry>").replace("</Ntry>", "</x:Ntry>")), "err")
+    add("all Ntry prefixed", wrap((E + E).replace("<Ntry>", "<x:Ntry>").replace("</Ntry>", "</x:Ntry>")), "ok")
+    add("Bal behind Ntry", "<Document><BkToCstmrStmt><Stmt>" + E + bal + "</Stmt></BkToCstmrStmt></Document>", "ok")
+    add("Bal, Ntry, Bal", wrap(E + bal), "err")
+    add("empty Ntry", wrap("<Ntry/>"), "err")
+    add("Stmt, GrpHdr, Stmt", "<Document><BkToCstmrStmt><Stmt>%s</Stmt><GrpHdr/><Stmt>%s</Stmt></BkToCstmrStmt></Document>" % (bal, bal), "err")
+    # --- scalars of an entry
+    add("Amt twice", wrap(ntry(inner='<Amt Ccy="CHF">6</Amt>')), "err")
+    add("AddtlNtryInf missing", wrap(ntry(info="")), "err")
+    add("AddtlNtryInf empty", wrap(ntry(info="<AddtlNtryInf/>")), "ok")
+    add("BkTxCd missing", wrap(ntry(bk="")), "err")
+    add("BkTxCd with text", wrap(ntry(bk="<BkTxCd>text</BkTxCd>")), "ok")
+    add("ValDt twice", wrap(ntry(inner="<ValDt><Dt>2024-01-05</Dt></ValDt><ValDt><Dt>2024-01-05</Dt></ValDt>")), "err")
+    add("ValDt empty", wrap(ntry(inner="<ValDt/>")), "err")
+    add("Ntry inside Ntry is unknown there", wrap(ntry(inner="<Ntry>junk</Ntry>")), "ok")
+    # --- attributes
+    for label, a, exp in [("missing Ccy", "<Amt>5</Amt>", "err"), ("single quotes", "<Amt Ccy='CHF'>5</Amt>", "ok"), ("prefixed attribute", '<Amt x:Ccy="CHF">5</Amt>', "ok"),
+                          ("Ccy and x:Ccy", '<Amt Ccy="CHF" x:Ccy="EUR">5</Amt>', "err"), ("Ccy twice", '<Amt Ccy="CHF" Ccy="EUR">5</Amt>', "err"),
+                          ("unquoted", "<Amt Ccy=CHF>5</Amt>", "err"), ("entity in Ccy", '<Amt Ccy="C&amp;F">5</Amt>', "ok"), ("bad entity in Ccy", '<Amt Ccy="&bad;">5</Amt>', "err"),
+                          ("bad entity in an ignored attribute", '<Amt Ccy="CHF" z="&bad;">5</Amt>', "ok"), ("lower-case ccy", '<Amt ccy="CHF">5</Amt>', "err"),
+                          ("xmlnsCcy", '<Amt xmlnsx:Ccy="CHF">5</Amt>', "ok"), ("xmlns:Ccy is a namespace binding", '<Amt xmlns:Ccy="CHF">5</Amt>', "err"),
+                          ("spaces", '<Amt   Ccy  =  "CHF"  >5</Amt>', "ok"), ("no space between attributes", '<Amt a="1"Ccy="CHF">5</Amt>', "ok"),
+                          ("key starting with =", '<Amt ="1" Ccy="CHF">5</Amt>', "err"), ("empty Ccy", '<Amt Ccy="">5</Amt>', "ok"), ("gt in value", '<Amt a=">" Ccy="CHF">5</Amt>', "ok"),
+                          ("element child", '<Amt Ccy="CHF"><x/>5</Amt>', "err"), ("text then element", '<Amt Ccy="CHF">5<x/></Amt>', "err"),
+                          ("split by a comment", '<Amt Ccy="CHF">5<!-- c -->6</Amt>', "ok"), ("no text", '<Amt Ccy="CHF"/>', "err")]:
+        add("Amt: " + label, wrap(ntry(amt=a)), exp)
+    add("ill-formed attribute on a leaf is never parsed", wrap(ntry(info="<AddtlNtryInf a=b>i</AddtlNtryInf>")), "ok")
+    add("ill-formed attribute on a skipped element", wrap(ntry(inner="<Foo a=b>i</Foo>")), "ok")
+    add("ill-formed attribute on Ntry", wrap(E.replace("<Ntry>", "<Ntry a=b>")), "err")
+    # --- numbers
+    for t in ["1e3", "+5", "5.", ".5", " 5 ", "1,000.00", "1_000", "_1", "-5", "-0", "-0.00", "--5", "+-5", "5e", "e5", "1E2", "1.50e1", "1.5e3", "1e-3", "1e-28", "1e-29",
+              "1.5e-28", "1e28", "1e29", "0e5", "0.00e5", "-0e5", "8e28", "79228162514264337593543950335", "79228162514264337593543950336",
+              "0.0000000000000000000000000001", "0.00000000000000000000000000005", "0.00000000000000000000000000004", "1.23456789012345678901234567895",
+              "123456789012345678901234567.895", "79228162514264337593543950335.5", "7922816251426433759354395033.55", "1.5.5", "5..", "", "   ", "0x10", "１２",
+              "1e+3", "1e-+3", "1e 3", "1e3.0", "1e99999999999", "12e-2", "-1.5e3", "1.5E-3", "1__2", "1_", "1_.5", "1._5", "1.5_", "1.2345678901234567890123456789_1",
+              "1.2345678901234567890123456789_9", "1.23456789012345678901234567891_9", "18446744073709551615", "1844674407370955161", "1844674407370955160.123",
+              "99999999999999999999999999999", "0.99999999999999999999999999995", "1e1", "10e1", "1.0e0", "1.10e1", "1.10e2", "1.10e3", "100e-2", "5&#x20;", "&#x35;",
+              "5<!-- -->", "<![CDATA[5]]>", "<![CDATA[ 5]]>", " <![CDATA[5]]> ", "5\n", "7.9e28", "1.0e28"]:
+        add("amount %r" % t, wrap(ntry(amt='<Amt Ccy="CHF">%s</Amt>' % t)))
+    # --- dates
+    for t in ["2024-01-02", "2024-1-2", " 2024 - 01 - 02 ", "20240102", "2024-13-01", "2024-02-30", "2024-02-29", "2023-02-29", "0000-01-01", "-0001-01-01", "+2024-01-02",
+              "+12024-01-02", "12024-01-02", "024-01-02", "24-01-02", "2024-01-02x", "2024/01/02", "2024-01-02T00:00:00", "", "2024-001-02", "2024-01-002", "2024-01-2 ",
+              "2024 -01-02", "2024- 01-02", "2024-01 -02", "2024-01- 02", "　2024-01-02", "2024-00-01", "2024-01-00", "2024-01-32", "+262142-12-31", "+262143-01-01",
+              "-262143-01-01", "-262144-01-01", "+99999999999-01-01", "2024-01-02<!-- c -->", "2024<!-- c -->-01-02"]:
+        add("Dt %r" % t, wrap(ntry(bd="<BookgDt><Dt>%s</Dt></BookgDt>" % t)))
+    for t in ["2024-01-02T10:30:00+02:00", "2024-01-02T10:30:00", "2024-01-02T10:30:00Z", "2024-01-02T10:30:00z", "2024-01-02 10:30:00+02:00", "2024-01-02t10:30:00+0200",
+              "2024-01-02T10:30:00 +02:00", "2024-01-02T10:30:00+02", "2024-01-02T10:30:00+02:", "2024-01-02T10:30:00+2:00", "2024-01-02T10:30:00.5+02:00",
+              "2024-01-02T10:30:00.+02:00", "2024-01-02T10:30:00.1234567890123+02:00", "2024-01-02T24:00:00Z", "2024-01-02T23:59:60Z", "2024-01-02T23:59:61Z",
+              "2024-01-02T23:60:00Z", "2024-01-02T1:2:3Z", "2024-01-02T 1 : 2 : 3 Z", "2024-01-02T10:30Z", "2024-01-02T10:30:00UTC", "2024-01-02T10:30:00 utc",
+              "2024-01-02T10:30:00-23:59", "2024-01-02T10:30:00+24:00", "2024-01-02T10:30:00+99:00", "2024-01-02T10:30:00+02:60", "2024-01-02T10:30:00−02:00",
+              "2024-01-02T10:30:00+02 00", "2024-01-02T10:30:00+02::00", "2024-01-02T10:30:00Z ", "2024-01-02T10:30:00Zx", "2024-01-02", "2024-01-02T", "2024-01-02TT10:30:00Z",
+              "2024-02-30T10:30:00Z", "2024-01-02T23:30:00-11:00", "2024-12-31T23:30:00+14:00", "2024-01-02T10:30:00+02:0", "2024-01-02T10:30:00 UTCx",
+              "2024-01-02T10:30:00.5 Z", "2024-01-02T10:30:00,5Z", " 2024-01-02T10:30:00Z"]:
+        add("DtTm %r" % t, wrap(ntry(bd="<BookgDt><DtTm>%s</DtTm></BookgDt>" % t)))
+    for label, b, exp in [("text", "<BookgDt>2024-01-02</BookgDt>", "err"), ("empty", "<BookgDt/>", "err"), ("Dt twice", "<BookgDt><Dt>2024-01-02</Dt><Dt>2024-01-02</Dt></BookgDt>", "err"),
+                          ("Dt then unknown", "<BookgDt><Dt>2024-01-02</Dt><X/></BookgDt>", "err"), ("unknown then Dt", "<BookgDt><X/><Dt>2024-01-02</Dt></BookgDt>", "err"),
+                          ("text then Dt", "<BookgDt>x<Dt>2024-01-02</Dt></BookgDt>", "err"), ("element inside Dt", "<BookgDt><Dt><x/>2024-01-02</Dt></BookgDt>", "err"),
+                          ("ill-formed attribute on Dt", "<BookgDt><Dt a=b>2024-01-02</Dt></BookgDt>", "ok"), ("ill-formed attribute on BookgDt", "<BookgDt a=b><Dt>2024-01-02</Dt></BookgDt>", "err"),
+                          ("prefixed DtTm", "<BookgDt><x:DtTm>2024-01-02T10:00:00Z</x:DtTm></BookgDt>", "ok"), ("white space", "<BookgDt>\n <Dt>\n 2024-01-02 \n</Dt>\n </BookgDt>", "ok")]:
+        add("BookgDt: " + label, wrap(ntry(bd=b)), exp)
+    # --- indicator and character data
+    for t, exp in [("CRDT", "ok"), ("DBIT", "ok"), (" CRDT ", "ok"), ("crdt", "err"), ("", "err"), ("CR<!-- -->DT", "ok"), ("<![CDATA[CRDT]]>", "ok"), ("&#67;RDT", "ok"), ("CRDT&#32;", "err"), ("XXXX", "err"),
+                   ("CRDT<x/>", None), ("<x/>CRDT", None)]:
+        add("CdtDbtInd %r" % t, wrap(ntry(cd="<CdtDbtInd>%s</CdtDbtInd>" % t)), exp)
+    for t in ["plain", " padded ", "a &amp; b &lt;c&gt; &quot;q&quot; &apos;s&apos;", "&#x41;&#66;", "&#0;", "&#xD800;", "&#x110000;", "&#xFFFFFFFFF;", "&#;", "&#x;", "&#+65;", "&#-65;", "&#X41;", "&foo;",
+              "a & b", "a &amp b;", "a ; b", "&amp;amp;", "<![CDATA[<raw> & ]]>", "a<![CDATA[b]]>c", " <![CDATA[ b ]]> ", "a<!-- c -->b", "a <!-- c --> b", " <!-- c --> ", "<?pi?>x<?pi y?>",
+              "a<b/>", "<b/>a", "<b>x</b>", "x]]>y", "a>b", "line1\nline2", "\tt\t", "&#32;sp&#32;", "&#10;", "<![CDATA[]]>", "<![CDATA[]]> ", "é山", "<!---->x", "<!--->y-->x",
+              "<!-- a -- b -->x", "a<!DOCTYPE x>b"]:
+        add("text %r" % t, wrap(ntry(info="<AddtlNtryInf>%s</AddtlNtryInf>" % t)))
+    for label, i, exp in [("gt inside attribute values", "<AddtlNtryInf a=\">\" b='<'>x</AddtlNtryInf>", "ok"), ("white space in the end tag", "<AddtlNtryInf>x</AddtlNtryInf  \n>", "ok"),
+                          ("white space before the end tag name", "<AddtlNtryInf>x</ AddtlNtryInf>", "err"), ("white space in the start tag", "<AddtlNtryInf  >x</AddtlNtryInf>", "ok"),
+                          ("white space before the names", "< AddtlNtryInf>x</ AddtlNtryInf>", "err"), ("end tag in another case", "<AddtlNtryInf>x</AddtlNtryinf>", "err"),
+                          ("slash in an attribute of an empty element", '<AddtlNtryInf a="/"/>', "ok"), ("slash space", "<AddtlNtryInf / >x</AddtlNtryInf>", "ok"),
+                          ("prefixed", "<n:AddtlNtryInf>x</n:AddtlNtryInf>", "ok"), ("two prefixes", "<n:m:AddtlNtryInf>x</n:m:AddtlNtryInf>", "err"),
+                          ("colon last", "<AddtlNtryInf:>x</AddtlNtryInf:>", "err"), ("colon first", "<:AddtlNtryInf>x</:AddtlNtryInf>", "ok")]:
+        add("AddtlNtryInf: " + label, wrap(ntry(info=i)), exp)
+    # --- skipped elements and markup the reader checks on the way
+    for label, i, exp in [("bad entity first in a skipped element", "<Foo>&bad;</Foo>", "err"), ("bad entity later in a skipped element", "<Foo><a/>&bad;</Foo>", "ok"),
+                          ("bad entity deeper in a skipped element", "<Foo><a>&bad;</a></Foo>", "ok"), ("white space, then bad entity", "<Foo> &bad;</Foo>", "err"),
+                          ("CDATA, then bad entity", "<Foo><![CDATA[x]]>&bad;</Foo>", "err"), ("same name nested", "<Foo><Foo><Foo/></Foo>x</Foo>", "ok"),
+                          ("mismatch inside", "<Foo><a></b></Foo>", "err"), ("unclosed inside", "<Foo><a></Foo>", "err"), ("bad CDATA start", "<Foo><![CDAT[x]]></Foo>", "err"),
+                          ("bad comment start", "<Foo><!- x --></Foo>", "err"), ("bang", "<Foo><!x></Foo>", "err"), ("PI not closed", "<Foo><?x></Foo>", "err"), ("<?>", "<Foo><?></Foo>", "err"),
+                          ("<??>", "<Foo><??></Foo>", "ok"), ("elements with the empty name", "<>x</>", "ok"), ("<!-->", "<!-->-->", "ok"), ("<!--->", "<!--->-->", "ok"), ("<!---->", "<!---->", "ok"),
+                          ("quote in text", '<Foo>"</Foo>', "ok"), ("gt in a quoted attribute", '<Foo a="x>y">z</Foo>', "ok"), ("quote never closed", '<Foo a="x>z</Foo>', "err"),
+                          ("quoted gt in an end tag", '<Foo>z</Foo ">">', "err"), ("mixed content, then text", "<Foo><a/>x</Foo> junk ", "ok"),
+                          ("mixed content, white space, comment", "<Foo><a>t</a> </Foo> <!-- c --> ", "ok")]:
+        add("inside Ntry: " + label, wrap(ntry(inner=i)), exp)
+    add("DOCTYPE between elements", wrap("<!DOCTYPE x>" + E))
+    add("xsi:nil", wrap(ntry(inner='<ValDt xsi:nil="true"/>')).replace("<Document>", '<Document xmlns:xsi="http://www.w3.org/2001/XMLSchema-instance">'))
+    add("xmlns:xml bound to something else", wrap(E).replace("<Document>", '<Document xmlns:xml="foo">'))
+    add("element named $value", wrap(ntry(amt='<Amt Ccy="CHF"><$value>5</$value></Amt>')))
+    add("element named @Ccy", wrap(ntry(amt="<Amt><@Ccy>CHF</@Ccy>5</Amt>")))
+    add("element in a code, then untrimmed text", wrap(ntry(cd="<CdtDbtInd><Foo><a/>x</Foo> CRDT</CdtDbtInd>")))
+    # --- details
+    add("TxDtls", wrap(nd(tx())), "ok")
+    add("two TxDtls", wrap(nd(tx() + tx())), "ok")
+    add("TxDtls interleaved", wrap(nd(tx() + "<X/>" + tx())), "err")
+    add("text between TxDtls", wrap(nd(tx() + "j" + tx())), "err")
+    for label, r, exp in [("missing", "", "err"), ("empty", "<Refs/>", "ok"), ("other reference only", "<Refs><EndToEndId>x</EndToEndId></Refs>", "ok"),
+                          ("AcctSvcrRef twice", "<Refs><AcctSvcrRef>a</AcctSvcrRef><AcctSvcrRef>b</AcctSvcrRef></Refs>", "err"), ("empty AcctSvcrRef", "<Refs><AcctSvcrRef/></Refs>", "ok"),
+                          ("twice", "<Refs/><Refs/>", "err")]:
+        add("Refs: " + label, wrap(nd(tx(refs=r))), exp)
+    add("TxDtls without Amt", wrap(nd(tx(amt=""))), "err")
+    add("TxDtls without CdtDbtInd", wrap(nd(tx(cd=""))), "err")
+    for t, exp in [("1", "ok"), ("+1", "ok"), ("-1", "err"), ("", "err"), (" 1 ", "ok"), ("1.0", "err"), ("18446744073709551615", "ok"), ("18446744073709551616", "err"), ("x", "err"), ("0x1", "err"), ("１", "err")]:
+        add("NbOfTxs %r" % t, wrap(nd(tx(), btch="<Btch><NbOfTxs>%s</NbOfTxs></Btch>" % t)), exp)
+    add("Btch empty", wrap(nd(tx(), btch="<Btch/>")), "err")
+    add("Btch twice", wrap(nd(tx(), btch="<Btch><NbOfTxs>1</NbOfTxs></Btch><Btch><NbOfTxs>1</NbOfTxs></Btch>")), "err")
+    add("Btch behind TxDtls", wrap(nd(tx() + "<Btch><NbOfTxs>1</NbOfTxs></Btch>")), "ok")
+    add("NtryDtls empty", wrap(ntry(inner="<NtryDtls/>")), "ok")
+    add("NtryDtls twice", wrap(ntry(inner="<NtryDtls/><NtryDtls/>")), "err")
+    add("AmtDtls", wrap(nd(tx(inner='<AmtDtls><InstdAmt><Amt Ccy="CHF">7</Amt></InstdAmt><TxAmt><Amt Ccy="CHF">7</Amt></TxAmt></AmtDtls>'))), "ok")
+    add("AmtDtls without InstdAmt", wrap(nd(tx(inner='<AmtDtls><TxAmt><Amt Ccy="CHF">7</Amt></TxAmt></AmtDtls>'))), "err")
+    add("AmtDtls without TxAmt", wrap(nd(tx(inner='<AmtDtls><InstdAmt><Amt Ccy="CHF">7</Amt></InstdAmt></AmtDtls>'))), "err")
+    add("AmtDtls with the detail's amount in another scale", wrap(nd(tx(inner='<AmtDtls><InstdAmt><Amt Ccy="CHF">5.0</Amt></InstdAmt><TxAmt><Amt Ccy="CHF">5.00</Amt></TxAmt></AmtDtls>'))), "ok")
+    x1 = "<CcyXchg><SrcCcy>EUR</SrcCcy><TrgtCcy>CHF</TrgtCcy><XchgRate>%s</XchgRate></CcyXchg>"
+    for t in ["0.95", " 0.95 ", "", "1e0", "<x/>", "0.95<x/>", "x", "0"]:
+        add("XchgRate %r" % t, wrap(nd(tx(inner='<AmtDtls><InstdAmt><Amt Ccy="EUR">7</Amt></InstdAmt><TxAmt><Amt Ccy="EUR">7</Amt>' + x1 % t + "</TxAmt></AmtDtls>"))))
+    add("CcyXchg without SrcCcy", wrap(nd(tx(inner='<AmtDtls><InstdAmt><Amt Ccy="EUR">7</Amt></InstdAmt><TxAmt><Amt Ccy="EUR">7</Amt><CcyXchg><TrgtCcy>CHF</TrgtCcy><XchgRate>1</XchgRate></CcyXchg></TxAmt></AmtDtls>'))), "err")
+    # --- charges
+    rc = '<Rcrd><Amt Ccy="CHF">%s</Amt><CdtDbtInd>DBIT</CdtDbtInd>%s</Rcrd>'
+    add("Chrgs empty", wrap(ntry(inner="<Chrgs></Chrgs>")), "ok")
+    add("Chrgs total only", wrap(ntry(inner='<Chrgs><TtlChrgsAndTaxAmt Ccy="CHF">1</TtlChrgsAndTaxAmt></Chrgs>')), "ok")
+    add("Chrgs total without currency", wrap(ntry(inner="<Chrgs><TtlChrgsAndTaxAmt>1</TtlChrgsAndTaxAmt></Chrgs>")), "err")
+    add("Chrgs total twice", wrap(ntry(inner='<Chrgs><TtlChrgsAndTaxAmt Ccy="CHF">1</TtlChrgsAndTaxAmt><TtlChrgsAndTaxAmt Ccy="CHF">1</TtlChrgsAndTaxAmt></Chrgs>')), "err")
+    for t, exp in [("", "ok"), ("<ChrgInclInd>true</ChrgInclInd>", "ok"), ("<ChrgInclInd>false</ChrgInclInd>", "ok"), ("<ChrgInclInd>1</ChrgInclInd>", "ok"), ("<ChrgInclInd>0</ChrgInclInd>", "ok"),
+                   ("<ChrgInclInd>TRUE</ChrgInclInd>", "err"), ("<ChrgInclInd> true </ChrgInclInd>", "ok"), ("<ChrgInclInd/>", "err"), ("<ChrgInclInd>yes</ChrgInclInd>", "err"),
+                   ("<ChrgInclInd>true</ChrgInclInd><ChrgInclInd>true</ChrgInclInd>", "err"), ("<ChrgInclInd><x/></ChrgInclInd>", "err")]:
+        add("ChrgInclInd %r" % t, wrap(ntry(inner="<Chrgs>" + rc % ("0.50", t) + "</Chrgs>")), exp)
+    add("two Rcrd", wrap(ntry(inner="<Chrgs>" + rc % ("0.50", "") + rc % ("0.25", "") + "</Chrgs>")), "ok")
+    add("Rcrd interleaved", wrap(ntry(inner="<Chrgs>" + rc % ("0.50", "") + "<X/>" + rc % ("0.25", "") + "</Chrgs>")), "err")
+    add("Rcrd without Amt", wrap(ntry(inner="<Chrgs><Rcrd><CdtDbtInd>DBIT</CdtDbtInd></Rcrd></Chrgs>")), "err")
+    add("Chrgs twice", wrap(ntry(inner="<Chrgs/><Chrgs/>")), "err")
+    # --- bank transaction code
+    dom = "<Domn><Cd>%s</Cd><Fmly><Cd>%s</Cd><SubFmlyCd>%s</SubFmlyCd></Fmly></Domn>"
+    for a, b, c, exp in [("PMNT", "ICDT", "AUTT", "ok"), ("PMNT", "RCDT", "SALA", "ok"), ("PMNT", "RDDT", "OTHR", "ok"), ("XXXX", "ICDT", "AUTT", "err"), ("PMNT", "XXXX", "AUTT", "err"),
+                         ("PMNT", "ICDT", "XXXX", "err"), (" PMNT ", " ICDT\n", "\tAUTT", "ok"), ("", "ICDT", "AUTT", "err")]:
+        add("Domn %s/%s/%s" % (a, b, c), wrap(ntry(bk="<BkTxCd>" + dom % (a, b, c) + "</BkTxCd>")), exp)
+    for label, b, exp in [("Domn without Cd", "<Domn><Fmly><Cd>ICDT</Cd><SubFmlyCd>AUTT</SubFmlyCd></Fmly></Domn>", "err"), ("Domn without Fmly", "<Domn><Cd>PMNT</Cd></Domn>", "err"),
+                          ("Fmly without SubFmlyCd", "<Domn><Cd>PMNT</Cd><Fmly><Cd>ICDT</Cd></Fmly></Domn>", "err"), ("Domn twice", (dom % ("PMNT", "ICDT", "AUTT")) * 2, "err"),
+                          ("Domn empty", "<Domn/>", "err"), ("Prtry only", "<Prtry><Cd>X</Cd><Issr>B</Issr></Prtry>", "ok"), ("Prtry without Cd", "<Prtry><Issr>B</Issr></Prtry>", "err"),
+                          ("Prtry with empty Cd", "<Prtry><Cd/></Prtry>", "ok"), ("element in Prtry/Cd", "<Prtry><Cd><x/></Cd></Prtry>", "err"),
+                          ("Issr twice", "<Prtry><Cd>X</Cd><Issr>B</Issr><Issr>B</Issr></Prtry>", "err"), ("Prtry and Domn", "<Prtry><Cd>X</Cd></Prtry>" + dom % ("PMNT", "ICDT", "AUTT"), "ok")]:
+        add("BkTxCd: " + label, wrap(ntry(bk="<BkTxCd>" + b + "</BkTxCd>")), exp)
+    add("BkTxCd twice", wrap(ntry(bk="<BkTxCd/><BkTxCd/>")), "err")
+    # --- balances
+    balf = '<Bal><Tp><CdOrPrtry><Cd>%s</Cd></CdOrPrtry></Tp><Amt Ccy="CHF">%s</Amt><CdtDbtInd>%s</CdtDbtInd></Bal>'
+    for code, exp in [("OPBD", "ok"), ("CLBD", "ok"), ("CLAV", "ok"), ("", "err"), (" OPBD ", "ok"), ("opbd", "ok"), ("OPBD&#32;", "ok")]:
+        add("balance code %r" % code, wrap(E, b=balf % (code, "10", "CRDT")), exp)
+    add("OPBD and CLBD", wrap(E, b=balf % ("OPBD", "10", "CRDT") + balf % ("CLBD", "15", "DBIT")), "ok")
+    add("two OPBD: the first counts", wrap(E, b=balf % ("OPBD", "10", "CRDT") + balf % ("OPBD", "11", "CRDT")), "ok")
+    add("CLBD without entries", wrap("", b=balf % ("CLBD", "10", "CRDT")), "ok")
+    for label, b, exp in [("no Tp", '<Bal><Amt Ccy="CHF">1</Amt><CdtDbtInd>CRDT</CdtDbtInd></Bal>', "err"), ("empty Tp", '<Bal><Tp/><Amt Ccy="CHF">1</Amt><CdtDbtInd>CRDT</CdtDbtInd></Bal>', "err"),
+                          ("Prtry instead of Cd", '<Bal><Tp><CdOrPrtry><Prtry>x</Prtry></CdOrPrtry></Tp><Amt Ccy="CHF">1</Amt><CdtDbtInd>CRDT</CdtDbtInd></Bal>', "err"),
+                          ("Cd twice", '<Bal><Tp><CdOrPrtry><Cd>OPBD</Cd><Cd>OPBD</Cd></CdOrPrtry></Tp><Amt Ccy="CHF">1</Amt><CdtDbtInd>CRDT</CdtDbtInd></Bal>', "err"),
+                          ("with Dt", '<Bal><Tp><CdOrPrtry><Cd>OPBD</Cd></CdOrPrtry></Tp><Amt Ccy="CHF">1</Amt><CdtDbtInd>CRDT</CdtDbtInd><Dt><Dt>2024-01-01</Dt></Dt></Bal>', "ok")]:
+        add("Bal: " + label, wrap(E, b=b), exp)
+    add("Bal, X, Bal", wrap(E, b=balf % ("OPBD", "10", "CRDT") + "<X/>" + balf % ("CLBD", "15", "CRDT")), "err")
+    add("second Bal prefixed", wrap(E, b=balf % ("OPBD", "10", "CRDT") + (balf % ("CLBD", "15", "CRDT")).replace("<Bal>", "<n:Bal>").replace("</Bal>", "</n:Bal>")), "err")
+    S1 = "<Stmt>" + balf % ("OPBD", "10", "CRDT") + balf % ("CLBD", "15", "CRDT") + E + "</Stmt>"
+    add("two Stmt", "<Document><BkToCstmrStmt>" + S1 + S1 + "</BkToCstmrStmt></Document>", "ok")
+    add("pretty printed", "<Document>\n  <BkToCstmrStmt>\n    <GrpHdr>\n      <MsgId>1</MsgId>\n      <CreDtTm>x</CreDtTm>\n    </GrpHdr>\n    " + S1.replace("><", ">\n      <") + "\n  </BkToCstmrStmt>\n</Document>\n", "ok")
+    # --- parties and accounts
+    for label, b, exp in [("inline", "<Cdtr><Nm>Alice</Nm></Cdtr>", "ok"), ("nested", "<Cdtr><Pty><Nm>Alice</Nm></Pty></Cdtr>", "ok"), ("nested, prefixed", "<Cdtr><x:Pty><Nm>Alice</Nm></x:Pty></Cdtr>", "ok"),
+                          ("nested with address", "<Cdtr><Pty><Nm>Alice</Nm><PstlAdr><AdrLine>x</AdrLine></PstlAdr></Pty></Cdtr>", "ok"),
+                          ("address twice", "<Cdtr><Pty><Nm>Alice</Nm><PstlAdr/><PstlAdr/></Pty></Cdtr>", "err"), ("address starting with a bad entity", "<Cdtr><Pty><Nm>Alice</Nm><PstlAdr>&bad;</PstlAdr></Pty></Cdtr>", "err"),
+                          ("empty", "<Cdtr/>", "err"), ("white space only", "<Cdtr> </Cdtr>", "err"), ("attribute, then Pty: inline", '<Cdtr a="1"><Pty><Nm>Alice</Nm></Pty></Cdtr>', "err"),
+                          ("attribute, then Nm", '<Cdtr a="1"><Nm>Alice</Nm></Cdtr>', "ok"), ("attribute only", '<Cdtr a="1"/>', "err"), ("ill-formed attribute", "<Cdtr a><Nm>Alice</Nm></Cdtr>", "err"),
+                          ("text, then Pty: inline", "<Cdtr>t<Pty><Nm>Alice</Nm></Pty></Cdtr>", "err"), ("text, then Nm", "<Cdtr>t<Nm>Alice</Nm></Cdtr>", "ok"),
+                          ("unknown, then Pty: inline", "<Cdtr><X/><Pty><Nm>Alice</Nm></Pty></Cdtr>", "err"), ("Pty, then Nm", "<Cdtr><Pty><Nm>Alice</Nm></Pty><Nm>Bob</Nm></Cdtr>", "ok"),
+                          ("Pty twice", "<Cdtr><Pty><Nm>Alice</Nm></Pty><Pty><Nm>Alice</Nm></Pty></Cdtr>", "err"), ("empty Pty", "<Cdtr><Pty/></Cdtr>", "err"),
+                          ("Nm twice", "<Cdtr><Nm>Alice</Nm><Nm>Bob</Nm></Cdtr>", "err"), ("empty Nm", "<Cdtr><Nm/></Cdtr>", "ok"), ("comment, then Pty", "<Cdtr><!-- c --><Pty><Nm>Alice</Nm></Pty></Cdtr>", "ok"),
+                          ("Cdtr twice", "<Cdtr><Nm>A</Nm></Cdtr><Cdtr><Nm>B</Nm></Cdtr>", "err"),
+                          ("all six", "<Dbtr><Nm>D</Nm></Dbtr><Cdtr><Nm>C</Nm></Cdtr><UltmtDbtr><Pty><Nm>UD</Nm></Pty></UltmtDbtr><UltmtCdtr><Nm>UC</Nm></UltmtCdtr><DbtrAcct><Id><IBAN>DE1</IBAN></Id></DbtrAcct><CdtrAcct><Id><Othr><Id>77</Id></Othr></Id></CdtrAcct>", "ok"),
+                          ("IBAN", "<CdtrAcct><Id><IBAN>CH1</IBAN></Id></CdtrAcct>", "ok"), ("IBAN with white space", "<CdtrAcct>\n<Id>\n<IBAN> CH1 </IBAN>\n</Id>\n</CdtrAcct>", "ok"),
+                          ("empty Id", "<CdtrAcct><Id/></CdtrAcct>", "err"), ("text in Id", "<CdtrAcct><Id>CH1</Id></CdtrAcct>", "err"), ("two IBAN", "<CdtrAcct><Id><IBAN>CH1</IBAN><IBAN>CH2</IBAN></Id></CdtrAcct>", "err"),
+                          ("unknown kind of id", "<CdtrAcct><Id><BBAN>CH1</BBAN></Id></CdtrAcct>", "err"), ("Othr without Id", "<CdtrAcct><Id><Othr><SchmeNm>x</SchmeNm></Othr></Id></CdtrAcct>", "err"),
+                          ("Othr with more", "<CdtrAcct><Id><Othr><Id>7</Id><SchmeNm><Cd>x</Cd></SchmeNm></Othr></Id></CdtrAcct>", "ok"), ("account without Id", "<CdtrAcct><Tp>x</Tp></CdtrAcct>", "err"),
+                          ("account with more", "<CdtrAcct><Id><IBAN>CH1</IBAN></Id><Ccy>CHF</Ccy></CdtrAcct>", "ok"), ("Id twice", "<CdtrAcct><Id><IBAN>CH1</IBAN></Id><Id><IBAN>CH1</IBAN></Id></CdtrAcct>", "err"),
+                          ("element in IBAN", "<CdtrAcct><Id><IBAN><x/></IBAN></Id></CdtrAcct>", "err"), ("ill-formed attribute on Id", "<CdtrAcct><Id a><IBAN>CH1</IBAN></Id></CdtrAcct>", "err"),
+                          ("comments in Id", "<CdtrAcct><Id><!-- c --><IBAN>CH1</IBAN><!-- d --></Id></CdtrAcct>", "ok"), ("nothing", "", "ok")]:
+        add("RltdPties: " + label, rp(b), exp)
+    add("RltdPties twice", wrap(nd(tx(inner="<RltdPties/><RltdPties/>"))), "err")
+    add("RmtInf", wrap(nd(tx(inner="<RmtInf><Ustrd>inv 1</Ustrd></RmtInf>"))), "ok")
+    add("RmtInf with two Ustrd", wrap(nd(tx(inner="<RmtInf><Ustrd>inv 1</Ustrd><Ustrd>inv 2</Ustrd></RmtInf>"))), "err")
+    add("RmtInf structured", wrap(nd(tx(inner="<RmtInf><Strd><x/></Strd></RmtInf>"))), "ok")
+    add("AddtlTxInf twice", wrap(nd(tx(inner="<AddtlTxInf/><AddtlTxInf/>"))), "err")
+    return out
 
 
 def make_rules(rng):
@@ -420,17 +998,188 @@ def oracle(stmts, order, ist, txns, proc, closing_cents, ccy):
     return msgs
 
 
+SIMPLE_YAML = "path: statement\nencoding: UTF-8\naccount: %s\naccount_type: asset\noperator: Op\ncommodity: CHF\nrewrite: []\n" % yq(ACCOUNT)
+SIMPLE_CFG = "(cfg %s (%s) o2n (rules))" % (enc(ACCOUNT), enc("Op"))
+
+
+def _outcome(field):
+    """import=<...> -> ('ok', [canonical txns]) | ('err', kind) | ('panic', text) | (other, text)"""
+    try:
+        st, tx = parse_import(field if field is not None else "(missing)")
+    except Exception as e:      # noqa
+        return ("unparsed", str(e))
+    if st == "ok":
+        return ("ok", [canon_txn(t) for t in tx])
+    return (st, tx)
+
+
+def run_xml_decode(chk, meta):
+    """stream `xml-decode`: hostile and boundary XML for the decoder.
+    1. the hand-written boundary corpus: model against implementation, plus the annotated expectation (ok / decode error);
+    2. generated statements under a change that cannot matter (fill, unknown elements at list-safe places, a namespace
+       prefix, other spellings of text / attributes / numbers, another field order, another envelope): the full C18 oracle
+       must hold on the implementation's output and the model must still decode the generator's structure;
+    3. generated statements under a change that must make decoding fail (a required element removed, a scalar repeated, a
+       list interleaved, truncation, ...): the implementation must answer `XML`.
+    The model may decline (`decoded=unsupported:…`): counted, never a disagreement, and never on part 2 or 3."""
+    rng = chk.rng
+    hx_lines, drv_lines, info = [], [], []
+    for label, xml, expect in boundary_corpus():
+        cid = "b%d" % len(info)
+        hx_lines.append("%s cfg=%s src=%s fund=~" % (cid, enc(SIMPLE_YAML), enc(xml)))
+        drv_lines.append("%s cfg=%s src=%s caps=() fund=()" % (cid, SIMPLE_CFG, enc(xml)))
+        info.append({"part": "boundary", "label": label, "xml": xml, "expect": expect, "yaml": SIMPLE_YAML, "fund": ""})
+    nmut = 1500 if chk.tier == "thorough" else 260
+    usable = [m for m in meta if sum(len(st["entries"]) for st in m[0]) > 0]
+    for j in range(nmut):
+        stmts, order, yaml, xml, fund, closing, ccy, cfg_sx, caps, fund_sx = usable[rng.randrange(len(usable))]
+        if len(xml) > 60000:
+            continue
+        cid = "m%d" % len(info)
+        if j % 2 == 0:
+            kinds = rng.sample(PRESERVING, rng.choice([1, 1, 2, 3]))
+            kinds.sort(key=lambda kf: {"envelope": 1, "prefix": 2}.get(kf[0], 0))      # the tag-based changes first
+            x2 = xml
+            for _, f in kinds:
+                x2 = f(rng, x2)
+            kind = "+".join(k for k, _ in kinds)
+            rec = {"part": "preserving", "label": kind, "xml": x2, "expect": "same", "yaml": yaml, "fund": fund,
+                   "stmts": stmts, "order": order, "closing": closing, "ccy": ccy}
+            drv_lines.append("%s cfg=%s src=%s caps=%s fund=%s stmts=%s" % (cid, cfg_sx, enc(x2), caps, fund_sx, stmts_sx(stmts)))
+        else:
+            kind, x2 = breaking(rng, xml)
+            if x2 is None or x2 == xml:
+                continue
+            if rng.random() < 0.3:      # a harmless change on top
+                x2 = preserve_fill(rng, x2) if "truncate" not in kind else x2
+            rec = {"part": "breaking", "label": kind, "xml": x2, "expect": "err", "yaml": yaml, "fund": fund}
+            drv_lines.append("%s cfg=%s src=%s caps=%s fund=%s" % (cid, cfg_sx, enc(x2), caps, fund_sx))
+        hx_lines.append("%s cfg=%s src=%s fund=%s" % (cid, enc(yaml), enc(x2), enc(fund)))
+        info.append(rec)
+    impl = run_sharded(HX, ["c18"], hx_lines)
+    model = run_sharded(DRV, ["c18"], drv_lines)
+    chk.streams["xml-decode"] = len(info)
+    declined = 0
+    for rec, iline, mline, dline in zip(info, impl, model, drv_lines):
+        chk.case(("xml-decode", rec["xml"]), nontrivial=True)
+        chk.traces += 1
+        _, f = split_fields(iline)
+        _, mf = split_fields(mline)
+        io = _outcome(f.get("import"))
+        mo = _outcome(mf.get("import", mline))
+        part = rec["part"]
+        chk.count("xml-decode:%s" % part)
+        chk.count("xml-decode:impl=%s" % (io[0] if io[0] != "err" else "err-" + str(io[1])))
+        if part == "breaking":
+            chk.count("xml-decode:breaking:%s" % rec["label"].split(":")[0])
+        elif part == "preserving":
+            for kname in rec["label"].split("+"):
+                chk.count("xml-decode:preserving:%s" % kname)
+        replay = {"config_yaml": rec["yaml"], "xml": rec["xml"], "fund": rec["fund"], "what": "%s: %s" % (part, rec["label"]),
+                  "impl": f.get("import"), "model": mf.get("import", mline), "model_decoded": mf.get("decoded"),
+                  "rerun": "hx c18 on `<id> cfg=<enc config_yaml> src=<enc xml> fund=<enc fund>` (see harness/src/c18.rs)"}
+        # ---- the expectation that does not use the model
+        msgs = []
+        if rec["expect"] == "err":
+            if io != ("err", "XML"):
+                msgs.append("a document that cannot be decoded (%s) is answered %s" % (rec["label"], str(io)[:200]))
+        elif rec["expect"] == "ok":         # decoding succeeds (the importer behind it may still refuse, e.g. two charges)
+            if not (io[0] == "ok" or (io[0] == "err" and io[1] != "XML")):
+                msgs.append("a document the decoder accepts by its rules (%s) is answered %s" % (rec["label"], str(io)[:200]))
+        elif rec["expect"] == "same":
+            ist, itx = parse_import(f.get("import", "(missing)")) if io[0] == "ok" else (io[0], io[1])
+            msgs = oracle(rec["stmts"], rec["order"], ist, itx, parse_proc_impl(f.get("proc", "-")), rec["closing"], rec["ccy"])
+        if msgs:
+            chk.oracle_failures += 1
+            chk.violation("Camt053 decoding (%s): %s" % (part, msgs[0]), dict(replay, oracle=msgs[:10]))
+            continue
+        # ---- model against implementation
+        if str(mf.get("decoded", "")).startswith("unsupported"):
+            declined += 1
+            chk.count("xml-decode:model-declines:" + str(mf.get("decoded"))[:60])
+            if part != "boundary":
+                chk.disagreements += 1
+                chk.violation("the model declines a generated document (%s)" % rec["label"], dict(replay, drv_case=dline),
+                              no_failing_input=True, tag="corr")
+            continue
+        agree = io == mo
+        if agree and rec["expect"] == "same":
+            agree = mf.get("xcheck") == "same"
+            if agree and rec["fund"]:
+                ip, mp = parse_proc_impl(f.get("proc", "-")), parse_proc_model(mf.get("proc", "-"))
+                agree = ip[0] == mp[0] == "ok" and bal_nonzero(ip[1]) == bal_nonzero(mp[1])
+        if not agree:
+            chk.disagreements += 1
+            chk.violation("model (reading the XML text) and implementation disagree on %s document `%s`" % (part, rec["label"]),
+                          dict(replay, stream="c18 xml-decode", drv_case=dline, xcheck=mf.get("xcheck")), no_failing_input=True, tag="corr")
+    chk.count("xml-decode:model-declines", declined)
+
+
+def run_render(chk, meta, impl_orig):
+    """stream `render`: the canonical rendering of the round-trip theorem (`CamtXml.render`, printed by `drv c18 render` from
+    the statement structure) is imported by the REAL code; the result must be the transactions the real code made of the
+    generator's own XML for the same statements (the real decoder reads `render d` as `d`), and the model must decode it
+    back to the generator's structure (`xcheck=same`, the theorem `decodeCamt_render` on this input)."""
+    meta = meta[:2500]          # the thorough tier renders a part of its statements
+    rlines = ["r%d stmts=%s" % (k, stmts_sx(m[0])) for k, m in enumerate(meta)]
+    rendered = run_sharded(DRV, ["c18", "render"], rlines)
+    hx_lines, drv_lines, keep = [], [], []
+    for k, (m, rl) in enumerate(zip(meta, rendered)):
+        _, rf = split_fields(rl)
+        stmts, order, yaml, xml, fund, closing, ccy, cfg_sx, caps, fund_sx = m
+        chk.count("render:renderable=%s" % rf.get("renderable"))
+        if rf.get("renderable") != "1":
+            chk.disagreements += 1
+            chk.violation("a generated statement is not `Renderable` (the round-trip theorem does not apply)",
+                          {"stmts": stmts_sx(stmts), "drv": rl[:300]}, no_failing_input=True, tag="corr")
+            continue
+        from common import dec_bytes
+        x2 = dec_bytes(rf["xml"]).decode("utf-8")
+        hx_lines.append("r%d cfg=%s src=%s fund=%s" % (k, enc(yaml), enc(x2), enc(fund)))
+        drv_lines.append("r%d cfg=%s src=%s caps=%s fund=%s stmts=%s" % (k, cfg_sx, enc(x2), caps, fund_sx, stmts_sx(stmts)))
+        keep.append((k, x2))
+    impl = run_sharded(HX, ["c18"], hx_lines)
+    model = run_sharded(DRV, ["c18"], drv_lines)
+    chk.streams["render"] = len(keep)
+    for (k, x2), iline, mline in zip(keep, impl, model):
+        chk.case(("render", x2), nontrivial=True)
+        chk.traces += 1
+        _, f = split_fields(iline)
+        _, fo = split_fields(impl_orig[k])
+        _, mf = split_fields(mline)
+        a, b, c = _outcome(f.get("import")), _outcome(fo.get("import")), _outcome(mf.get("import", mline))
+        if not (a == b and a[0] == "ok" and f.get("proc") == fo.get("proc")):
+            chk.oracle_failures += 1
+            chk.violation("the real importer reads the canonical rendering of a statement differently from the generator's XML of the same statement",
+                          {"config_yaml": meta[k][2], "xml": x2, "xml_generator": meta[k][3], "fund": meta[k][4],
+                           "impl_rendered": f.get("import"), "impl_generator": fo.get("import")})
+            continue
+        if not (c == a and mf.get("xcheck") == "same"):
+            chk.disagreements += 1
+            chk.violation("model and implementation disagree on the canonical rendering (or the model does not decode it back: xcheck=%s)" % mf.get("xcheck"),
+                          {"config_yaml": meta[k][2], "xml": x2, "fund": meta[k][4], "impl": f.get("import"), "model": mf.get("import", mline)},
+                          no_failing_input=True, tag="corr")
+
+
 def run(chk):
-    chk.rule = ("generated consistent single-currency Camt053 statements rendered as XML in the dialect of "
+    chk.rule = ("stream camt-consistent: generated consistent single-currency Camt053 statements rendered as XML in the dialect of "
                 "cli/tests/testdata/import/*.xml: entries without details, batches of 1-5 details, credit/debit, value date "
                 "absent / equal / before / after the booking date, Dt and DtTm, charges (zero, included with amount details, "
                 "not included, credit charges) on entries and details, balances of either sign, one or two statements per "
-                "document, both row orders, rewrite rules over party names / info texts / domain codes; a case is "
-                "non-trivial when it has at least one entry; distinct = distinct XML texts")
+                "document, both row orders, every fourth document with the children of every element shuffled, rewrite rules over "
+                "party names / info texts / domain codes; the MODEL READS THE SAME XML TEXT and its decoded statement is compared with "
+                "the generator's structure; non-trivial = at least one entry. Stream xml-decode: 478 hand-written boundary documents "
+                "(envelope, lists, attributes, numbers, dates, character data, skipped elements, every struct of the schema) plus "
+                "generated statements under a change that cannot matter (fill, unknown elements, namespace prefix, other spellings of "
+                "text / attributes / numbers, envelope) or that must break decoding (required element removed, scalar repeated, list "
+                "interleaved, truncation, bad entity, mismatched tag, attribute errors, ...). Stream render: the model's canonical "
+                "rendering of every generated statement, imported by the real code. Distinct = distinct XML texts")
     chk.assumptions = [
-        "XML decoding (quick-xml + serde, xmlnode.rs) is exercised on the real side only: the model starts from the statement "
-        "structure that the generator rendered as XML; YAML decoding and the regex engine likewise (matches computed with Python re)",
-        "single-currency statements: currency exchange details are modelled but not generated",
+        "the regex engine and YAML decoding are outside the model (matches computed with Python re; configuration handed over decoded)",
+        "the model declines (decoded=unsupported) xsi:nil / reserved namespace bindings / serde-key element names / DOCTYPE inside the "
+        "root / elements inside code elements / from_scientific rescaling: only hand-written boundary documents are declined, counted "
+        "under xml-decode:model-declines",
+        "single-currency statements: currency exchange details are modelled (and covered by boundary documents) but not generated",
     ]
     if not standard_prologue(chk, THEOREMS):
         return
@@ -492,7 +1241,8 @@ def run(chk):
         if fmt:
             yaml += "format:\n" + "".join(fmt)
         yaml += rules_yaml(rules)
-        xml = render_xml(rng, stmts)
+        shuffled = i % 4 == 3
+        xml = render_xml(rng, stmts, shuffle=shuffled)
         b0 = D.cents(opening)
         fund = fund_text(ACCOUNT, (2000, 1, 1), b0.text(), ccy)
         fund_sx = "(%s %s %s)" % (date_sx((2000, 1, 1)), b0.sx3(), enc(ccy))
@@ -506,12 +1256,13 @@ def run(chk):
                     hay.extend(d["info"].values())
         caps = caps_table(rules, hay, TEXT_FIELDS)
         cfg_sx = "(cfg %s (%s) %s %s)" % (enc(ACCOUNT), enc(operator), order, rules_sx(rules))
-        drv_lines.append("%s cfg=%s stmts=%s caps=%s fund=%s" % (cid, cfg_sx, stmts_sx(stmts), caps, fund_sx))
-        meta.append((stmts, order, yaml, xml, fund, closing, ccy))
+        # the model reads the XML text itself; `stmts=` (what the generator rendered) is only used for the cross-check
+        drv_lines.append("%s cfg=%s src=%s caps=%s fund=%s stmts=%s" % (cid, cfg_sx, enc(xml), caps, fund_sx, stmts_sx(stmts)))
+        meta.append((stmts, order, yaml, xml, fund, closing, ccy, cfg_sx, caps, fund_sx))
     impl = run_sharded(HX, ["c18"], hx_lines)
     model = run_sharded(DRV, ["c18"], drv_lines)
     chk.streams["camt-consistent"] = n
-    for (stmts, order, yaml, xml, fund, closing, ccy), iline, mline, dline in zip(meta, impl, model, drv_lines):
+    for (stmts, order, yaml, xml, fund, closing, ccy, _c, _k, _f), iline, mline, dline in zip(meta, impl, model, drv_lines):
         nent = sum(len(st["entries"]) for st in stmts)
         chk.case(xml, nontrivial=nent > 0)
         chk.traces += 1
@@ -551,9 +1302,19 @@ def run(chk):
             agree = iproc[0] == mproc[0] == "ok" and bal_nonzero(iproc[1]) == bal_nonzero(mproc[1])
         if not agree:
             chk.disagreements += 1
-            chk.violation("model and implementation of the Camt053 importer disagree (property oracle holds on this input)",
+            chk.violation("model (reading the XML text) and implementation of the Camt053 importer disagree (property oracle holds on this input)",
                           dict(replay, stream="c18 camt", drv_case=dline), no_failing_input=True, tag="corr")
+            continue
+        # the statement structure the model decoded from the text is the one the generator rendered
+        chk.count("xcheck:" + mf.get("xcheck", "missing"))
+        if mf.get("xcheck") != "same":
+            chk.disagreements += 1
+            chk.violation("the model's XML decoder does not yield the statement structure the generator rendered (xcheck=%s decoded=%s)" %
+                          (mf.get("xcheck"), mf.get("decoded")), dict(replay, stream="c18 camt xcheck", drv_case=dline),
+                          no_failing_input=True, tag="corr")
+    run_xml_decode(chk, meta)
+    run_render(chk, meta, impl)
     for i in (0, n // 2):
-        stmts, order, yaml, xml, fund, closing, ccy = meta[i]
+        stmts, order, yaml, xml, fund, closing, ccy = meta[i][:7]
         _, f = split_fields(impl[i])
         chk.sample({"config_yaml": yaml, "xml": xml[:3000], "impl_import": f.get("import", "")[:800], "impl_proc": f.get("proc", "")[:300]})
